@@ -386,10 +386,91 @@ def case_lifetime(case):
     return out
 
 
+def case_user_subclass(case):
+    """A program may derive its own classes from the public address classes (a label, another way of numbering).
+    Objects of such classes are addresses of their base kind, and their existence changes nothing about how the
+    library's own classes read frames.  Runs in a process of its own (class definitions stay in the registry).
+    case: {"op": "subclass", "variant": "label" | "renumbering"}"""
+    address, frame, exc = _mods()
+    out = []
+    variant = case["variant"]
+    numbered = [("GearShort", 64, 16, 9, 0x00), ("GearGroup", 16, 16, 9, 0x40), ("DeviceShort", 64, 24, 17, 0x00),
+                ("DeviceGroup", 32, 24, 17, 0x40)]
+    fixed = [("GearBroadcast", 16, 9, 0x7F), ("GearBroadcastUnaddressed", 16, 9, 0x7E), ("DeviceBroadcast", 24, 17, 0x7F),
+             ("DeviceBroadcastUnaddressed", 24, 17, 0x7E)]
+    try:
+        subs = {}
+        for name, top, bits, shift, flag in numbered:
+            base = getattr(address, name)
+            if variant == "label":
+                subs[name] = type("Labelled" + name, (base,), {"label": "plant room"})
+            else:
+                # numbered from 1 in the user's world: Zone(n) is group n-1, Panel(n) is short address n-1
+                def _init(self, n, _b=base):
+                    _b.__init__(self, n - 1)
+                subs[name] = type("OneBased" + name, (base,), {"__init__": _init})
+        for name, bits, shift, field in fixed:
+            subs[name] = type("Labelled" + name, (getattr(address, name),), {"label": "all"})
+        # 1. the library's reading of every address byte is what it was
+        for bits, shift in ((16, 9), (24, 17)):
+            for field in range(128):
+                v = (field << shift) | (0x10000 if bits == 24 else 0) | 0x5A
+                r = address.from_frame(frame.ForwardFrame(bits, v))
+                exp = ref_gear_addr(field) if bits == 16 else ref_device_addr(v)
+                if describe(r) != exp:
+                    out.append(("C04:partition-changed-by-user-subclass:%s" % variant, "with application subclasses defined (%s), "
+                                "%d-bit %#x reads as %r, standard says %r" % (variant, bits, v, describe(r), exp)))
+                    break
+        # 2. an object of a subclass is an address of its base kind: writes the same field, equals the plain object
+        #    and the object read back, in both operand orders
+        for name, top, bits, shift, flag in numbered:
+            base = getattr(address, name)
+            for n in (0, 1, top // 2, top - 1):
+                o = subs[name](n if variant == "label" else n + 1)
+                plain = base(n)
+                f = frame.ForwardFrame(bits, 0x10000 if bits == 24 else 0)
+                o.add_to_frame(f)
+                g = frame.ForwardFrame(bits, 0x10000 if bits == 24 else 0)
+                plain.add_to_frame(g)
+                back = address.from_frame(f)
+                if f.as_integer != g.as_integer:
+                    out.append(("C04:user-subclass-writes-other-bits:" + name, "%s(%d) writes %#x, %s(%d) writes %#x"
+                                % (type(o).__name__, n, f.as_integer, name, n, g.as_integer)))
+                elif not (o == plain and plain == o and back == o and o == back) or (o != plain) or (plain != o) or (back != o):
+                    out.append(("C04:user-subclass-not-equal:" + name, "%s object for number %d: ==plain %r, plain== %r, "
+                                "==read-back %r, read-back== %r, != %r" % (type(o).__name__, n, o == plain, plain == o, o == back,
+                                                                          back == o, o != plain)))
+        for name, bits, shift, field in fixed:
+            o, plain = subs[name](), getattr(address, name)()
+            f = frame.ForwardFrame(bits, 0x10000 if bits == 24 else 0)
+            o.add_to_frame(f)
+            back = address.from_frame(f)
+            if not (o == plain and plain == o and back == o and o == back) or (o != plain) or (back != o):
+                out.append(("C04:user-subclass-not-equal:" + name, "%s object: ==plain %r, plain== %r, ==read-back %r, read-back== %r"
+                            % (type(o).__name__, o == plain, plain == o, o == back, back == o)))
+    except Exception as e:  # noqa
+        out.append(("C04:user-subclass-raised:%s" % type(e).__name__, "variant %s: %r" % (variant, e)))
+    return out
+
+
+def _subclass_shard(variant):
+    res = Result()
+    case = {"op": "subclass", "variant": variant}
+    res.count(300)
+    res.nontrivial(n=300)
+    res.label("user-subclasses:" + variant, 300)
+    for sig, msg in case_user_subclass(case):
+        res.violation(sig, case, msg)
+    res.sample(case, cls="user subclass")
+    return res
+
+
 def run_case(case):
     op = case["op"]
     if op == "lifetime":
         return case_lifetime(case)
+    if op == "subclass":
+        return case_user_subclass(case)
     if op == "write":
         return case_write(case)
     if op == "decode":
@@ -525,5 +606,6 @@ def run(ctx):
     for ci in range(len(NUMBERED)):
         shards.append(("lifetime", ci, ctx.seed))
     ctx.pmap(_shard, shards)
+    ctx.pmap(_subclass_shard, ["label", "renumbering"], fresh=True)
     ctx.result.exhaustive = not q
     ctx.result.extra["strides"] = {"gear_write": stride, "device_write": dstride, "instance_write": istride, "decode24": d24}
